@@ -24,6 +24,7 @@ RULE = ("2..6 concurrent raw-peer sessions with seeded schedules over {connect, 
         "least one refusal or abnormal ending occurred.")
 RULE += ("  " + 'Also: a server-wide write limit so that sessions end while replies are still queued behind the throttle.')
 RULE += ("  " + 'Also: a re-login while a transfer of the session is in flight, then the session vanishes.')
+RULE += ("  " + 'Also (round 7): peers beyond the server-wide limit whose first command(s) are in the socket buffer when the server accepts the connection (simnet early data), with and without a write limit: the refusal is one 421 and EOF, and while it is on its way an admitted session can log in to an account with limit 1.')
 ASSUMPTIONS = ["counter values are read from AvailableConnections.value (read-only); the black-box re-admission check does not "
                "depend on them", "MemoryUserManager"]
 REQUIRED_MONITORS = ["blackbox_readmission", "bound_at_events"]  # counter reads and the contract use internals and are optional
@@ -263,9 +264,89 @@ async def scenario(net, hyg, plan):
         w.cleanup()
 
 
+async def early_scenario(net, hyg, plan):
+    """The server-wide limit is used up by holder sessions; further peers connect and send their first command(s) so early
+    that the bytes are there when the server's loop first looks at the connection.  Such an attempt is refused with 421, gets
+    nothing else, and is not counted anywhere: while its 421 is still on its way (a write limit delays it) a holder's own
+    USER for a limited account must be accepted."""
+    from ..rawpeer import RawPeer
+    viol = []
+    mon = {"early_refused": 0, "blackbox_readmission": 0, "bound_at_events": 0}
+    smax = plan["server_limit"]
+    users = [aioftp.User("b", None, base_path="/", maximum_connections=1), aioftp.User("a", "pa", base_path="/", maximum_connections=1)]
+    w = W.World(net, users=users)
+    w.server = aioftp.Server(users, path_io_factory=w.factory, maximum_connections=smax, write_speed_limit=plan.get("write_speed_limit"))
+    await w.server.start("127.0.0.1", 2121)
+    try:
+        holders = []
+        for i in range(smax):
+            h = RawPeer(net, 2121, name=f"holder{i}")
+            r = await h.connect()
+            if r in (None, "EOF") or r.code != "220":
+                viol.append({"key": "greeting-code", "msg": f"holder {i} of {smax} greeted {r}"})
+            holders.append(h)
+        where = f"limit {smax}, write limit {plan.get('write_speed_limit')}, early bytes {plan['early']!r}"
+        for rnd in range(plan["rounds"]):
+            net.next_conn_early_data = plan["early"].encode()
+            x = RawPeer(net, 2121, name=f"early{rnd}")
+            await x.connect(greet=False)
+            await asyncio.sleep(plan.get("gap", 0.01))
+            # the refused attempt must not be counted: the admitted session's own login works at this moment
+            r = await holders[0].cmd("USER b", wait=60)
+            mon["bound_at_events"] += 1
+            if r in (None, "EOF") or r.code != "230":
+                viol.append({"key": "refused-attempt-counted", "msg": f"{where}, round {rnd}: while the early peer was being refused, the "
+                                                                      f"admitted session's USER b (limit 1, nobody else attached) answered {r}"})
+            got = []
+            while True:
+                rr = await x.read_reply(wait=90)
+                if rr in (None, "EOF"):
+                    got.append(str(rr))
+                    break
+                got.append(rr.code)
+            mon["early_refused"] += 1
+            if got != ["421", "EOF"]:
+                viol.append({"key": "refused-attempt-served", "msg": f"{where}, round {rnd}: the peer beyond the limit received {got}, "
+                                                                     f"a refusal is one 421 and the end of the connection"})
+            x.cut("fin")
+            r = await holders[0].cmd("USER a", wait=60)     # gives b's slot back (331 for a)
+            if len(viol) > 3:
+                break
+        for h in holders:
+            await h.cmd("QUIT", wait=60)
+            h.cut("fin")
+        await net.quiesce(2.0)
+        mon["blackbox_readmission"] += 1
+        fresh, got = [], []
+        for i in range(smax + 1):
+            s = RawPeer(net, 2121, name=f"fresh{i}")
+            r = await s.connect()
+            got.append(r.code if r not in (None, "EOF") else str(r))
+            fresh.append(s)
+        if got != ["220"] * smax + ["421"]:
+            viol.append({"key": "server-slot-leak" if got.count("220") < smax else "limit-not-enforced",
+                         "msg": f"{where}: afterwards {smax + 1} fresh connections were greeted {got}"})
+        r = await fresh[0].cmd("USER b", wait=60)
+        if r in (None, "EOF") or r.code != "230":
+            viol.append({"key": "user-slot-leak", "msg": f"{where}: afterwards USER b answered {r}"})
+        for s in fresh:
+            s.cut("fin")
+        for le in hyg.logged_exceptions():
+            if "Too many" in le["exc"]:
+                viol.append({"key": "accounting-raised:logged", "msg": str(le)})
+        await net.quiesce(1.0)
+        await w.stop()
+        return {"violations": viol[:4], "monitors": mon, "nevents": len(net.events), "cut_done": False,
+                "sig": sig_of(["early", smax, plan.get("write_speed_limit"), plan["early"]]), "nontrivial": True, "codes": []}
+    finally:
+        w.cleanup()
+
+
 def run_plan(plan):
     rearm()
     async def main(net, hyg):
+        if plan.get("early") is not None:
+            return await early_scenario(net, hyg, plan)
         return await scenario(net, hyg, plan)
     res, info = W.run(main, seed=plan.get("seed", 0), net_kwargs=dict(latency=plan.get("latency", 0.001), jitter=plan.get("jitter", 0.0)))
     if res is None:
@@ -415,6 +496,13 @@ def gen_cases(tier, seed):
                           "plan": {"seed": seed, "server_limit": smax, "ulimits": ul, "anonymous": False, "write_speed_limit": 150,
                                    "scripts": [sc, [["connect"], ["cmd", "USER b"], ["sleep", 0.05], ["quit"]]],
                                    "offsets": [0, 0.0031]}})
+    # peers beyond the server-wide limit whose first command is there before the server looks at the connection
+    for smax in (1, 2):
+        for wsl in (None, 20, 150):
+            for early in ("USER b\r\n", "USER b\r\nPWD\r\n", "USER a\r\nPASS pa\r\n", "NOOP\r\n"):
+                for lat in ((0.0, 0.001) if tier == "quick" else (0.0, 0.0005, 0.001, 0.003)):
+                    cases.append({"kind": "single", "plan": {"seed": seed, "early": early, "server_limit": smax, "write_speed_limit": wsl,
+                                                             "rounds": 6 if tier == "quick" else 20, "latency": lat, "scripts": []}})
     for i in range(60 if tier == "quick" else 1500):
         m = rng.randint(2, 5)
         cases.append({"kind": "single", "plan": {
